@@ -154,6 +154,11 @@ func (g *gen) stmt() *Node {
 	g.depth++
 	defer func() { g.depth-- }()
 	k := g.draw(20, "sk")
+	if k <= 2 && g.depth == 1 && g.draw(5, "topab") != 0 {
+		// an abrupt statement directly in the function body ends the run before anything is pending: mostly
+		// replace it by a try statement or a for-of (where the abrupt completions then occur)
+		k = 3 + g.draw(7, "topsub")
+	}
 	switch k {
 	case 0, 1, 2:
 		g.kinds["abrupt"]++
